@@ -505,6 +505,48 @@ func runConsumers(a *Analyzer, r *Results) {
 					return false
 				})
 				if !okc {
+					// a "make room" helper that only receives: every caller must go on to send to the channel it passed
+					if prm, isPrm := rc.ch.(*ssa.Parameter); isPrm && !token.IsExported(f.Name()) {
+						pidx := -1
+						for i, p := range f.Params {
+							if p == prm {
+								pidx = i
+							}
+						}
+						nSites, all := 0, true
+						for _, g := range a.P.Funcs {
+							cg := a.NewFCtx(g, a.EntryEnv(g, nil), 0)
+							for _, gb := range g.Blocks {
+								for _, gi := range gb.Instrs {
+									gc, isCall := gi.(*ssa.Call)
+									if !isCall || gc.Call.StaticCallee() != f || pidx >= len(gc.Call.Args) {
+										continue
+									}
+									nSites++
+									key := cg.Term(gc.Call.Args[pidx]).Key()
+									sends := func(in ssa.Instruction) bool {
+										switch y := in.(type) {
+										case *ssa.Send:
+											return in.Parent() == g && cg.Term(y.Chan).Key() == key
+										case *ssa.Select:
+											for _, st := range y.States {
+												if st.Dir == types.SendOnly && in.Parent() == g && cg.Term(st.Chan).Key() == key {
+													return true
+												}
+											}
+										}
+										return false
+									}
+									if !mustReach(gi, sends) {
+										all = false
+									}
+								}
+							}
+						}
+						okc = nSites > 0 && all
+					}
+				}
+				if !okc {
 					why = "a non-blocking receive from " + lbl + " in " + shortName(f) + " is not followed by this function's own send to that channel: it discards a pending value instead of replacing it"
 				}
 			default:
@@ -1093,7 +1135,7 @@ func mustReachAfterSuccessN(a *Analyzer, call *ssa.Call, pred func(ssa.Instructi
 	walk = func(b *ssa.BasicBlock, idx int) bool {
 		for i := idx; i < len(b.Instrs); i++ {
 			in := b.Instrs[i]
-			if pred(in) {
+			if instrMustDo(a, in, pred, 0) {
 				return true
 			}
 			switch in.(type) {
@@ -1288,6 +1330,48 @@ func runRoundBookkeeping(a *Analyzer, r *Results) {
 
 // callMustReach: the instruction is the SPI invoke itself, or a static call of a library function every path of which
 // (entry to normal return) passes such an instruction: the send is unconditional once the helper is entered.
+// instrMustDo: the instruction satisfies pred, or is a static call of a library function every path of which (from entry
+// to return) passes an instruction that does.
+func instrMustDo(a *Analyzer, in ssa.Instruction, pred func(ssa.Instruction) bool, depth int) bool {
+	if pred(in) {
+		return true
+	}
+	ci, ok := in.(*ssa.Call)
+	if !ok {
+		return false
+	}
+	sc := ci.Call.StaticCallee()
+	if sc == nil || !a.P.IsLib(sc) || len(sc.Blocks) == 0 || depth > 3 {
+		return false
+	}
+	seen := map[*ssa.BasicBlock]bool{sc.Blocks[0]: true}
+	var walk func(b *ssa.BasicBlock) bool
+	walk = func(b *ssa.BasicBlock) bool {
+		for _, x := range b.Instrs {
+			if instrMustDo(a, x, pred, depth+1) {
+				return true
+			}
+			switch x.(type) {
+			case *ssa.Return:
+				return false
+			case *ssa.Panic:
+				return true
+			}
+		}
+		for _, s := range b.Succs {
+			if seen[s] {
+				continue
+			}
+			seen[s] = true
+			if !walk(s) {
+				return false
+			}
+		}
+		return true
+	}
+	return walk(sc.Blocks[0])
+}
+
 func callMustReach(a *Analyzer, in ssa.Instruction, recvType, method string, depth int) bool {
 	ci, ok := in.(ssa.CallInstruction)
 	if !ok {
